@@ -82,6 +82,13 @@ def cases(tier, seed):
     for d in ("G1", "G3") if quick else ("G1", "G3", "G4"):
         for c in CURRENTS[len(TERMS[d])][:2]:
             out.append(dict(fam="run", dev=d, dens="coarse", cur=c, field="static", adaptive=False, k=3, screening=False, units="um", seeded=True))
+    # histories: the checked run is not the first use of the device / mesh object
+    for d in ("G1", "G3", "G4") if quick else ("G1", "G3", "G4", "G2"):
+        cur = CURRENTS[len(TERMS[d])]
+        for prior in ("other_currents_first", "other_solver_alive", "unbiased_first"):
+            for c in (cur[1], cur[6]):
+                out.append(dict(fam="run", dev=d, dens="coarse", cur=c, field="static", adaptive=False, k=2, screening=False, units="um", seeded=False,
+                                prior=prior))
     # acceptance
     scales = ["1", "0.1"] if quick else ["1", "0.1", "1/3", "0.001"]
     for d in ("G1", "G3", "G4"):
@@ -174,7 +181,8 @@ def run_run(case):
     res = CaseResult()
     res.key = case_key(case)
     lu, fu, cu = UNIT_SETS[case["units"]]
-    dev = zoo.device(case["dev"], density=case["dens"], units=case["units"])
+    prior = case.get("prior")
+    dev = zoo.device(case["dev"], density=case["dens"], units=case["units"], memo=(prior is None))
     names = TERMS[case["dev"]]
     cs = 0.25 * CURR_SCALE[case["units"]]  # the invariant is linear in the currents: keep the drive gentle
     arg, func = current_func(case["cur"], names, cs)
@@ -192,6 +200,19 @@ def run_run(case):
         save_every=case["k"], output_file="out.h5", field_units=fu, current_units=cu, include_screening=case["screening"],
         screening_tolerance=1e-2, progress_interval=10**9,
     )
+    alive = None
+    if prior:
+        # something else happened to this device object first
+        other = {n: 0.0 for n in names}
+        other[names[-1]], other[names[0]] = 0.4 * cs, -0.4 * cs
+        po = tdgl.SolverOptions(solve_time=3 * dt, dt_init=dt, dt_max=dt, adaptive=False, save_every=3, output_file="prior.h5",
+                                field_units=fu, current_units=cu, progress_interval=10**9)
+        if prior == "other_currents_first":
+            tdgl.solve(dev, po, applied_vector_potential=0.1 * fs, terminal_currents=other)
+        elif prior == "unbiased_first":
+            tdgl.solve(dev, po, applied_vector_potential=0.1 * fs, terminal_currents=None)
+        else:
+            alive = tdgl.TDGLSolver(dev, po, applied_vector_potential=0.1 * fs, terminal_currents=other)  # constructed and kept alive
     seed = None
     if case["seeded"]:
         o2 = tdgl.SolverOptions(solve_time=5 * dt, dt_init=dt, dt_max=dt, adaptive=False, save_every=5, output_file="seed.h5",
